@@ -4,6 +4,10 @@ from __future__ import annotations
 import random
 
 
+def r_choice(r, xs):
+    return xs[r.randrange(len(xs))]
+
+
 class Gen:
     def __init__(self, rnd: random.Random):
         self.r = rnd
@@ -27,12 +31,18 @@ class Gen:
 
     def end_stmt(self, kind: str, name: str, indent: int) -> int:
         form = self.r.random()
-        if form < 0.5:
+        if form < 0.4:
             t = f"{self.kw('end')} {self.kw(kind)} {name}"
-        elif form < 0.8:
+        elif form < 0.6:
             t = f"{self.kw('end')} {self.kw(kind)}"
-        else:
+        elif form < 0.75:
             t = f"{self.kw('end')}{self.kw(kind)} {name}"
+        elif form < 0.87:
+            t = f"{self.kw('end')}   {self.kw(kind)}   {name}   ! trailing comment"
+        elif kind in ("subroutine", "function", "module", "program"):
+            t = self.kw("end")  # a bare END closes a program unit or procedure
+        else:
+            t = f"{self.kw('end')} {self.kw(kind)}"
         return self.emit(t, indent)
 
     # ---------------------------------------------------------------- constructs inside procedure bodies
@@ -67,10 +77,38 @@ class Gen:
                 self.emit(f"{self.kw('associate')} (aa => x)", indent)
                 self.body(indent + 1, depth - 1)
                 self.emit(self.kw("end associate"), indent)
-            elif c < 0.92:
+            elif c < 0.88:
                 self.emit(f"{self.kw('where')} (arr > 0)", indent)
                 self.emit("arr = 0", indent + 1)
                 self.emit(self.kw("end where"), indent)
+            elif depth > 0 and c < 0.91:
+                lbl = self.name("lb")
+                self.emit(f"{lbl}: {self.kw('do')} i = 1, 3", indent)
+                self.body(indent + 1, depth - 1)
+                self.emit(f"{self.kw('end do')} {lbl}", indent)
+            elif depth > 0 and c < 0.93:
+                lbl = self.name("lb")
+                self.emit(f"{lbl}: {self.kw('if')} (x > 0) {self.kw('then')}", indent)
+                self.body(indent + 1, depth - 1)
+                self.emit(f"{self.kw('else if')} (x < -1) {self.kw('then')} {lbl}", indent)
+                self.emit(f"{self.kw('end if')} {lbl}", indent)
+            elif depth > 0 and c < 0.95:
+                self.emit(f"{self.kw('select type')} (cls)", indent)
+                self.emit(f"{self.kw('type is')} (integer)", indent)
+                self.body(indent + 1, depth - 1)
+                self.emit(f"{self.kw('class default')}", indent)
+                self.emit(self.kw("end select"), indent)
+            elif c < 0.96:
+                self.emit(f"{self.kw('forall')} (i = 1:3)", indent)
+                self.emit("arr(i) = i", indent + 1)
+                self.emit(self.kw("end forall"), indent)
+            elif c < 0.97:
+                self.emit(f"{self.kw('critical')}", indent)
+                self.emit("x = x + 1", indent + 1)
+                self.emit(self.kw("end critical"), indent)
+            elif c < 0.985:
+                self.emit(r_choice(self.r, ["where (arr > 1) arr = 1", "forall (i = 1:3) arr(i) = 0", "if (x > 1) x = 0",
+                                            "do_count = 3", "block_size = x", "if_flag = x", "where_all(1) = 2"]), indent)
             else:
                 self.emit("if (x > 1) x = 0", indent)
 
@@ -78,12 +116,22 @@ class Gen:
         is_fun = self.r.random() < 0.4
         kind = "function" if is_fun else "subroutine"
         nm = self.name("fn" if is_fun else "sb")
-        head = f"{self.kw(kind)} {nm}(a)" + (f" {self.kw('result')}(res)" if is_fun and self.r.random() < 0.5 else "")
-        if self.r.random() < 0.2:
+        has_res = is_fun and self.r.random() < 0.5
+        head = f"{self.kw(kind)} {nm}(a, cls)" + (f" {self.kw('result')}(res)" if has_res else "")
+        typed = is_fun and not has_res and self.r.random() < 0.5
+        if typed:
+            head = self.r.choice(["integer ", "real(8) ", "double precision ", "type(integer) ", "logical(kind=4) "]) + head
+        pre = self.r.random()
+        if pre < 0.15:
             head = self.kw("pure ") + head
+        elif pre < 0.25:
+            head = self.kw("recursive ") + head
+        elif pre < 0.3 and not typed:
+            head = self.kw("impure elemental ") + head
         s = self.emit(head, indent)
-        self.emit("integer :: a, x, i", indent + 1)
-        self.emit("integer :: arr(3)", indent + 1)
+        self.emit("integer :: a, x, i, do_count, block_size, if_flag", indent + 1)
+        self.emit("integer :: arr(3), where_all(2)", indent + 1)
+        self.emit("class(*) :: cls", indent + 1)
         self.body(indent + 1, 2)
         if allow_nested and self.r.random() < 0.3:
             self.emit(self.kw("contains"), indent)
@@ -150,8 +198,9 @@ class Gen:
     def program(self):
         nm = self.name("pg")
         s = self.emit(f"{self.kw('program')} {nm}", 0)
-        self.emit("integer :: x, i", 1)
-        self.emit("integer :: arr(3)", 1)
+        self.emit("integer :: x, i, do_count, block_size, if_flag", 1)
+        self.emit("integer :: arr(3), where_all(2)", 1)
+        self.emit("class(*), allocatable :: cls", 1)
         self.body(1, 2)
         if self.r.random() < 0.5:
             self.emit(self.kw("contains"), 0)
@@ -232,7 +281,7 @@ def check_program(text, expect, members, fname="g.f90"):
         universe = [e["name"] for e in tops] + [e["name"] for e in expect if e["container"] in mods | progs]
         universe += ["mv" for e in expect if e["cat"] == "module"]
         for _ in progs:
-            universe += ["x", "i", "arr"]
+            universe += ["x", "i", "arr", "do_count", "block_size", "if_flag", "where_all", "cls"]
         for k, q in enumerate(queries):
             res = by_id[10 + k].get("result")
             if res is None:
